@@ -27,13 +27,16 @@ def hCrashWf (j : Json) : R Json := do
   let g ← nat j "g"
   let status0 ← natList j "status0"
   let n := status0.length
-  let surv := (List.range (evs.length + 1)).map fun i =>
+  let points : List Nat := match j.getObjVal? "points" with
+    | .ok v => (asNatList v).toOption.getD (List.range (evs.length + 1))
+    | .error _ => List.range (evs.length + 1)
+  let surv := points.map fun i =>
     let w := run {} (evs.take i)
     let res (s : St) : Json := ofList ((List.range n).map fun p =>
       match s.lookup ⟨f, g, p⟩ with
       | some v => toJson v
       | none => Json.null)
-    Json.mkObj [("vs", ofNatList (statusOf w.vol f g status0)), ("ds", ofNatList (statusOf w.dur f g status0)),
+    Json.mkObj [("i", i), ("vs", ofNatList (statusOf w.vol f g status0)), ("ds", ofNatList (statusOf w.dur f g status0)),
       ("vr", res w.vol), ("dr", res w.dur)]
   return Json.mkObj [("wf", WellFormed final evs), ("strong", wfStrongFrom final {} evs),
     ("survivors", ofList surv)]
